@@ -345,6 +345,152 @@ def oracle_long(ctx, thorough):
     return None, case, None
 
 
+# ----------------------------------------------------------------------------- argument kinds of the numeric hyper-parameters
+# alpha / ratio / picos_eps are documented as floats. Every object that IS a number in Python / numpy is an allowed way
+# of handing one over: int, float, numpy scalars, 0-d arrays (an element kept as array, a value out of a parameter
+# grid / container) and 1-element arrays. The meaning of the estimator is the one of float(alpha), float(ratio): the
+# returned matrix minimises the documented cost computed from those floats, and the objects handed in are the caller's.
+
+def _f32_exact(v):
+    return float(np.float32(v)) == float(v)
+
+
+ARG_KINDS = [
+    # (name, applicable, constructor, weight)
+    ('float', lambda v: True, lambda v: float(v), 2),
+    ('int', lambda v: float(v).is_integer(), lambda v: int(v), 1),
+    ('np.float64', lambda v: True, lambda v: np.float64(v), 1),
+    ('np.float32', _f32_exact, lambda v: np.float32(v), 1),
+    ('np.int64', lambda v: float(v).is_integer(), lambda v: np.int64(v), 1),
+    ('0-d float64 ndarray', lambda v: True, lambda v: np.array(float(v)), 4),
+    ('0-d float32 ndarray', _f32_exact, lambda v: np.array(v, dtype=np.float32), 1),
+    ('0-d integer ndarray', lambda v: float(v).is_integer(), lambda v: np.array(int(v)), 1),
+    ('1-element float64 ndarray', lambda v: True, lambda v: np.array([float(v)]), 3),
+    ('read-only 0-d float64 ndarray', lambda v: True, lambda v: _readonly(np.array(float(v))), 1),
+]
+
+
+def _readonly(a):
+    a.setflags(write=False)
+    return a
+
+
+def arg_kind(rng, v, exclude=()):
+    """the number v as an object of a randomly chosen kind: (object, name of the kind)"""
+    pool = [(n, mk) for n, ok, mk, w in ARG_KINDS if ok(v) and n not in exclude for _ in range(w)]
+    n, mk = rng.choice(pool)
+    return mk(v), n
+
+
+def arg_print(obj):
+    """(type, dtype, shape, flags, bytes) of a parameter object - everything a caller can observe of it"""
+    if isinstance(obj, np.ndarray):
+        return ('ndarray', str(obj.dtype), obj.shape, bool(obj.flags.writeable), obj.tobytes())
+    return (type(obj).__name__, None, None, None, np.asarray(obj).tobytes())
+
+
+def arg_float(obj):
+    return float(np.asarray(obj).reshape(-1)[0])
+
+
+def oracle_argkinds(ctx, thorough):
+    """LmiEdmd (every inv_method) / LmiDmdc constructed with alpha, ratio, picos_eps handed over as Python int / float,
+    numpy scalar, 0-d ndarray or 1-element ndarray (every reg_method, square_norm): the returned matrix minimises the
+    documented cost computed by the harness from float(alpha), float(ratio) - competitors: the fit of the same class with
+    plain Python floats, rescalings of the returned matrix, a local search; a second fit of the same object does too; the
+    objects handed to the constructor (and the estimator's parameters) are bit for bit what they were before the fit."""
+    snap = ctx.snap()
+    rng = ctx.rng
+    nx, nu = rng.randint(1, 3), rng.randint(0, 2)
+    X, kw, _, _ = lc.lin_data(rng, nx, nu, radius=rng.choice([0.7, 0.95]), noise=0.05)
+    Xu, Xs = pykoop.shift_episodes(np.asarray(X, dtype=float), n_inputs=nu, episode_feature=True)
+    Psi, Theta = Xu[:, 1:].T, Xs[:, 1:].T
+    q = Psi.shape[1]
+    fam = rng.choice(['edmd', 'edmd', 'dmdc'])
+    reg = rng.choice(['tikhonov', 'twonorm', 'twonorm', 'nuclear', 'nuclear'])
+    alpha = rng.choice([0.0, 0.1, 1.0, 3.0]) if reg == 'tikhonov' else rng.choice([0.1, 0.5, 1.0, 2.0, 4.0])
+    ratio = rng.choice([1.0, 0.4, 0.7]) if reg == 'tikhonov' else rng.choice([0.25, 0.5, 0.5, 0.7, 0.75, 1.0])   # (ignored for pure Tikhonov)
+    eps = rng.choice([0.0, 0.0, 1e-9])
+    square = rng.random() < 0.4
+    inv = rng.choice(INV)
+    vals = {'alpha': alpha, 'ratio': ratio, 'picos_eps': eps}
+    objs, kinds = {}, {}
+    for k, v in vals.items():
+        # (picos_eps goes to PICOS as it is, as the right-hand side of a matrix inequality; PICOS loads float64 and integer
+        # arrays only and rejects a float32 ARRAY with a TypeError - a loud refusal, not a wrong minimiser: not generated)
+        objs[k], kinds[k] = arg_kind(rng, v, exclude=('0-d float32 ndarray',) if k == 'picos_eps' else ())
+    before = {k: arg_print(o) for k, o in objs.items()}
+    extra = {'inv_method': inv} if fam == 'edmd' else {}
+    cls = lmi.LmiEdmd if fam == 'edmd' else lmi.LmiDmdc
+    case = {'family': fam, 'reg': reg, 'alpha': alpha, 'ratio': ratio, 'picos_eps': eps, 'kinds': kinds, 'square': square,
+            'inv': inv if fam == 'edmd' else None, 'nx': nx, 'nu': nu, 'X': X.tolist(),
+            'replay': {'rng': snap, 'thorough': thorough, 'kind': 'argkinds'}}
+    name = (f'{cls.__name__}({reg}, inv_method={case["inv"]}, square_norm={square}) with alpha = {alpha} given as {kinds["alpha"]}, '
+            f'ratio = {ratio} as {kinds["ratio"]}, picos_eps = {eps} as {kinds["picos_eps"]}')
+    # the same estimator described with plain Python floats: a competitor, and the evidence that the problem is solvable
+    try:
+        plain = cls(alpha=float(alpha), ratio=float(ratio), picos_eps=float(eps), reg_method=reg, square_norm=square,
+                    solver_params=dict(lc.SOLVER), **extra)
+        plain.fit(X, **kw)
+    except Exception as ex:
+        return None, case, 'plain-float fit did not complete: ' + type(ex).__name__ + ' ' + str(ex)[:60]
+    if getattr(plain, 'solution_status_', 'optimal') != 'optimal':
+        return None, case, 'plain-float fit: solver status ' + str(plain.solution_status_)
+    est = cls(alpha=objs['alpha'], ratio=objs['ratio'], picos_eps=objs['picos_eps'], reg_method=reg, square_norm=square,
+              solver_params=dict(lc.SOLVER), **extra)
+    a_tik = alpha if reg == 'tikhonov' else alpha * (1 - ratio)
+    a_oth = 0.0 if reg == 'tikhonov' else alpha * ratio
+    cost = lambda V: doc_cost(V, Psi, Theta, q, a_tik, a_oth, reg, square)
+    U_plain = np.array(plain.coef_.T, dtype=float)
+
+    def untouched(when):
+        for k, o in objs.items():
+            now = arg_print(o)
+            if now != before[k]:
+                return (f'{name}: the {k} object handed to the constructor was changed by {when} (value {vals[k]!r} -> '
+                        f'{np.asarray(o).tolist()!r}, {before[k][:4]} -> {now[:4]})')
+            p = est.get_params(deep=False).get(k)
+            try:
+                pv = arg_float(p)
+            except Exception:
+                pv = None
+            if pv != float(vals[k]):
+                return f'{name}: the parameter {k} of the estimator is {p!r} after {when}, it was constructed with {vals[k]!r}'
+        return None
+
+    for attempt in ('the first fit', 'a second fit of the same object'):
+        try:
+            est.fit(X, **kw)
+        except Exception as ex:
+            why = untouched(attempt)
+            return (why or f'{name}: {attempt} raises {type(ex).__name__} ({str(ex)[:80]}), the same estimator described with '
+                    f'Python floats fits with status optimal'), case, None
+        why_obj = untouched(attempt)
+        if getattr(est, 'solution_status_', 'optimal') != 'optimal':
+            return why_obj, case, 'solver status ' + str(est.solution_status_)
+        U = np.array(est.coef_.T, dtype=float)
+        if U.shape != U_plain.shape or not np.all(np.isfinite(U)):
+            return f'{name}: coef_ of {attempt} has shape {est.coef_.shape} / is not finite', case, None
+        base = cost(U)
+        tol = 2e-5 * max(1.0, abs(base))
+        competitors = [('the matrix returned for the same parameters given as Python floats', U_plain)]
+        if attempt == 'the first fit':
+            r = scipy.optimize.minimize_scalar(lambda t: cost(t * U), bounds=(0.0, 4.0), method='bounded', options={'xatol': 1e-10})
+            competitors.append((f'the returned matrix times {float(r.x):.6g}', float(r.x) * U))
+            r = scipy.optimize.minimize(lambda v: cost(v.reshape(U.shape)), U.ravel(), method='Nelder-Mead' if reg != 'tikhonov' else 'BFGS',
+                                        options={'maxiter': 2000, 'xatol': 1e-10, 'fatol': 1e-14} if reg != 'tikhonov' else {'gtol': 1e-10})
+            competitors.append(('a matrix found by local search', r.x.reshape(U.shape)))
+        for what, V in competitors:
+            cv = cost(V)
+            if cv < base - tol:
+                case['competitor'] = np.asarray(V).tolist()
+                return (f'{name}: {what} has documented cost {cv:.9g} (coefficients alpha (1 - ratio) = {a_tik:.6g}, alpha ratio = '
+                        f'{a_oth:.6g}) < {base:.9g} of the coef_ returned by {attempt}' + (f'; moreover {why_obj[len(name) + 2:]}' if why_obj else '')), case, None
+        if why_obj:
+            return why_obj, case, None
+    return None, case, None
+
+
 def run(ctx):
     ctx.rule = ('(i) LmiEdmd._create_base_problem for all 7 inv_methods on integer data with a power-of-two number of '
                 'pairs (so c, G, H are dyadic): objective vs the Lean objective over Q, and the epigraph block against '
@@ -355,11 +501,20 @@ def run(ctx):
                 'in 1..500 episodes, non-stationary data on the grid 1/64 so that the harness\'s own Gram sums are exact; the LMI '
                 'size does not depend on the number of pairs): the returned matrix against the closed-form ridge solution and Edmd '
                 '(pure Tikhonov), against rescalings of itself, the segment towards the ridge solution and a local search (norm '
-                'regularisers), cost evaluated sample by sample on the whole record')
+                'regularisers), cost evaluated sample by sample on the whole record; (iv) the same two families constructed with alpha / ratio / '
+                'picos_eps handed over in every kind a number comes in (Python int / float, np.float64 / float32 / int64, 0-d float / '
+                'float32 / integer ndarray, writeable or read-only, 1-element ndarray), all reg_method x square_norm x inv_method: the '
+                'returned matrix (first fit and a second fit of the same object) against the fit with plain Python floats, '
+                'rescalings of itself and a local search on the documented cost computed by the harness from float(alpha), '
+                'float(ratio); the objects handed to the constructor and the estimator\'s parameters compared bit for bit '
+                '(type, dtype, shape, flags, bytes) before and after each fit; a fit that raises where the plain-float fit is '
+                'optimal is a failure')
     ctx.explanation = ('theorems C12_* (Schur complement of the epigraph block, tight slack, objective = documented cost, '
                        'Tikhonov = EDMD, two-norm and nuclear-norm blocks = exact epigraphs); correspondence on problem structure; oracle: '
                        'no competitor beats the returned cost by more than 2e-5 relative (SDP tolerance), on short records and on '
-                       'records of thousands of snapshot pairs alike (data-size dependent routes in forming c, G, H / the SVD factors)')
+                       'records of thousands of snapshot pairs alike (data-size dependent routes in forming c, G, H / the SVD factors), and whatever '
+                       'kind of number object the hyper-parameters are given as (the split alpha (1 - ratio), alpha ratio is the one of the '
+                       'float values; fit does not write to the caller\'s objects)')
     ctx.assumptions = ["an 'optimal' answer is optimal up to solver tolerance", 'numeric factorisations (chol, ldl, eig, sqrt, svd) are validated (L L^T = H to 1e-8), not proved']
     ctx.proof_obligations('Properties.C12', THEOREMS)
     def _sec_problem_structure():
@@ -512,11 +667,27 @@ def run(ctx):
                 if stop_at_first:
                     return
     long_fits(ctx.n(12, 150))
+    def kind_fits(n, stop_at_first=False):
+        for i in range(n):
+            why, case, note = oracle_argkinds(ctx, ctx.tier == 'thorough')
+            ctx.count(f"argkind_fit:{case['family']}/{case['reg']}")
+            for k, v in case['kinds'].items():
+                ctx.count(f'argkind:{k} as {v}')
+            if note:
+                ctx.count('argkind_fit_note:' + note[:40])
+            ctx.record_case({k: v for k, v in case.items() if k not in ('X', 'competitor')}, True)
+            if why:
+                ctx.fail(why, case, {'family': case['family'], 'reg': case['reg']})
+                if stop_at_first:
+                    return
+    kind_fits(ctx.n(30, 400))
     # a broken proof / correspondence with no failing fit so far: a larger population of fits (same oracles)
     def search(c):
         fits(100, True)
         if not ctx.failures:
             long_fits(30, True)
+        if not ctx.failures:
+            kind_fits(60, True)
     return ctx.finish('proof', search)
 
 
@@ -529,6 +700,6 @@ def replay(ctx, path):
         print('this replay carries no re-executable oracle call (broken proof / correspondence: see "broken")')
         return 1
     ctx.restore(r['rng'])
-    why, case, note = (oracle_long if r.get('kind') == 'long' else oracle_fit)(ctx, r['thorough'])
+    why, case, note = {'long': oracle_long, 'argkinds': oracle_argkinds}.get(r.get('kind'), oracle_fit)(ctx, r['thorough'])
     print('oracle now:', why or 'property holds on this input', '' if note is None else f'({note})')
     return 1 if why else 0
